@@ -8,6 +8,17 @@ from .src import Source
 
 # (name, program text defining RESULT or raising, expected repr of RESULT / "raise <Exc>")
 PROGRAMS = [
+    ("bytearray-buffer", '''
+buf = bytearray()
+alias = buf
+buf += b"ab"
+buf.extend(b"cd")
+snap = bytes(buf)
+n = len(alias)
+alias.clear()
+other = bytearray(b"xy") + b"z"
+RESULT = (snap, n, len(buf), bool(buf), bytes(other), isinstance(other, bytearray), isinstance(snap, bytearray))
+''', "(b'abcd', 4, 0, False, b'xyz', True, False)"),
     ("bytes-repeat-and-concatenate", '''
 pop = b"0"
 RESULT = (pop * 3 + b"g1;", 2 * b"ab", (b"x", b"y", b"z")[2 - 1], b"(" + b"t", str(12).encode(), bytes([4]))
